@@ -116,6 +116,7 @@ Inductive case :=
 | KScaled2 (sh : Z2) (s o p : Q2) (tol : Q) (out : Q2)
 | KExtent1 (n : Z) (s o : Q) (tol : Q) (out : Q2)
 | KExtent2 (sh : Z2) (s o : Q2) (tol : Q) (out : Q * Q * Q * Q)
+| KExtentGrid (sh : Z2) (s o : Q2) (tol : Q) (ext : Q * Q * Q * Q) (g : list Q2)   (* the extent AND the all-false pixel-centre grid of one object *)
 | KGridPixels (sh : Z2) (s o : Q2) (g : list Q2) (tol : Q) (out : list Q2)
 | KGridCentres (sh : Z2) (s o : Q2) (g : list Q2) (out : list Q2)
 | KGridIndexes (sh : Z2) (s o : Q2) (g : list Q2) (out : list Q)
@@ -140,17 +141,32 @@ Definition pix_ok (sh : Z2) (s o c : Q2) (p : Z2) : bool :=
 Definition pix1_ok (n : Z) (s o x : Q) (j : Z) : bool :=
   negb (@in_extent1 QOps n s o x) || @in_interval QOps (@centre1_spec QOps n s o j) s x.
 
+(* the implementation reports these positions in PIXEL units ([tol] is a pixel-unit tolerance); the specification evaluates
+   them in scaled units, where the tolerance is tol * pixel scale *)
+Definition q2tol_scaled (tol : Q) (s : Q2) (a b : Q2) : bool :=
+  qtol (tol * Qabs (fst s)) (fst a) (fst b) && qtol (tol * Qabs (snd s)) (snd a) (snd b).
+(* extent edges = outermost pixel centres -/+ half a pixel; g is the row-major all-false pixel-centre grid *)
+Definition extent_edges_ok (tol : Q) (s : Q2) (ext : Q * Q * Q * Q) (g : list Q2) : bool :=
+  let '(xmin, xmax, ymin, ymax) := ext in
+  match g with
+  | [] => false
+  | first :: _ =>
+      let lst := last g first in
+      qtol tol xmin (snd first - snd s / 2) && qtol tol xmax (snd lst + snd s / 2) &&
+      qtol tol ymax (fst first + fst s / 2) && qtol tol ymin (fst lst - fst s / 2)
+  end.
+
 Definition spec_ok (k : case) : bool :=
   match k with
   | KCentral1 n s o tol outp outs =>
       (* the (real-valued) pixel position whose scaled coordinate is 0, for origin 0 resp. o *)
-      qtol tol (@cx_spec QOps n s 0%Q outp) 0%Q && qtol tol (@cx_spec QOps n s o outs) 0%Q
+      qtol (tol * Qabs s) (@cx_spec QOps n s 0%Q outp) 0%Q && qtol (tol * Qabs s) (@cx_spec QOps n s o outs) 0%Q
   | KCentral2 sh s o tol outp outs =>
-      q2tol tol (@cy_spec QOps (fst sh) (fst s) 0%Q (fst outp), @cx_spec QOps (snd sh) (snd s) 0%Q (snd outp)) (0%Q, 0%Q) &&
-      q2tol tol (@cy_spec QOps (fst sh) (fst s) (fst o) (fst outs), @cx_spec QOps (snd sh) (snd s) (snd o) (snd outs)) (0%Q, 0%Q)
+      q2tol_scaled tol s (@cy_spec QOps (fst sh) (fst s) 0%Q (fst outp), @cx_spec QOps (snd sh) (snd s) 0%Q (snd outp)) (0%Q, 0%Q) &&
+      q2tol_scaled tol s (@cy_spec QOps (fst sh) (fst s) (fst o) (fst outs), @cx_spec QOps (snd sh) (snd s) (snd o) (snd outs)) (0%Q, 0%Q)
   | KMaskCentres sh s c tol out =>
       (* the (real-valued) pixel position of the requested centre, mask origin (0,0) *)
-      q2tol tol (@cy_spec QOps (fst sh) (fst s) 0%Q (fst out), @cx_spec QOps (snd sh) (snd s) 0%Q (snd out)) c
+      q2tol_scaled tol s (@cy_spec QOps (fst sh) (fst s) 0%Q (fst out), @cx_spec QOps (snd sh) (snd s) 0%Q (snd out)) c
   | KPix1 n s o x out => pix1_ok n s o x out
   | KPix2 sh s o c out => pix_ok sh s o c out
   | KScaled1 n s o p tol out => qtol tol out (@cx_spec QOps n s o p)
@@ -158,6 +174,7 @@ Definition spec_ok (k : case) : bool :=
       q2tol tol out (@cy_spec QOps (fst sh) (fst s) (fst o) (fst p), @cx_spec QOps (snd sh) (snd s) (snd o) (snd p))
   | KExtent1 n s o tol out => q2tol tol out (@extent1_spec QOps n s o)
   | KExtent2 sh s o tol out => q4tol tol out (@extent_spec QOps sh s o)
+  | KExtentGrid sh s o tol ext g => extent_edges_ok tol s ext g
   | KGridPixels sh s o g tol out => all2 (q2tol tol) out (map (@pixels_spec QOps sh s o) g)
   | KGridCentres sh s o g out =>
       all2 (fun c p => match isint (fst p), isint (snd p) with
